@@ -93,6 +93,7 @@ def _mutants():
     from selftest.mutate import Mutant as M
     S = "_string.py"
     return [
+        M("mer-loss-views-caller-tensor", "_string.py", "hyp = hyp.reshape(-1, max_hyp_steps)", "hyp = hyp.view(-1, max_hyp_steps)", "no-merging-view-of-a-caller's-tensor"),
         M("empty-reference-scores-length", "_string.py", "er = torch.where(zero_mask, hyp_lens.gt(0).to(er.dtype), er)", "er = torch.where(zero_mask, hyp_lens.to(er.dtype), er)", "empty-reference-scores-0-or-1@final"),
         M("empty-reference-prefix-scores-index", "_string.py", "torch.arange(prefix_ers.size(0), device=device).gt(0).to(row.dtype)", "torch.arange(prefix_ers.size(0), device=device).to(row.dtype)", "empty-reference-scores-0-or-1@prefix"),
         M("error-rate-no-mistakes", S, "return _string_matching(ref, hyp, eos, include_eos, batch_first, ins_cost, del_cost, sub_cost, warn, norm=norm, return_mistakes=True)",
